@@ -4,15 +4,15 @@
 #  (d) run the property's check against the changed worktree (quick, then thorough if quick misses).
 set -u
 id="$1"; wt="$2"; shift 2
-out="/verif/seeded/$id"; mkdir -p "$out"
+oid="${OUT_ID:-$id}"; out="/verif/seeded/$oid"; mkdir -p "$out"
 cd "$wt" || exit 2
 git diff -- src/ > "$out/patch.diff"
 demo=$(ls tests/seeded_demo.rs examples/seeded_demo.rs 2>/dev/null | head -1)
 cp "$demo" "$out/" 2>/dev/null; cp NOTES.md "$out/NOTES.md" 2>/dev/null
 export CARGO_NET_OFFLINE=true CARGO_TARGET_DIR="$wt/target"
-run_demo() { if [[ "$demo" == tests/* ]]; then timeout 900 cargo test --offline --test seeded_demo >/tmp/vs-$id.log 2>&1; else timeout 900 cargo run --offline --example seeded_demo >/tmp/vs-$id.log 2>&1; fi; echo $?; }
-echo "[a] demo WITH change:"; a=$(run_demo); echo "    exit=$a"; tail -3 /tmp/vs-$id.log | cut -c1-200
-git stash push -q -- src/ ; echo "[b] demo WITHOUT change:"; b=$(run_demo); echo "    exit=$b"; tail -2 /tmp/vs-$id.log | cut -c1-200; git stash pop -q
+run_demo() { if [[ "$demo" == tests/* ]]; then timeout 900 cargo test --offline --test seeded_demo >/tmp/vs-$oid.log 2>&1; else timeout 900 cargo run --offline --example seeded_demo >/tmp/vs-$oid.log 2>&1; fi; echo $?; }
+echo "[a] demo WITH change:"; a=$(run_demo); echo "    exit=$a"; tail -3 /tmp/vs-$oid.log | cut -c1-200
+git apply -R "$out/patch.diff" || { echo "cannot revert patch"; exit 2; }; echo "[b] demo WITHOUT change:"; b=$(run_demo); echo "    exit=$b"; tail -2 /tmp/vs-$oid.log | cut -c1-200; git apply "$out/patch.diff" || { echo "cannot re-apply patch"; exit 2; }
 echo "[c] baseline WITH change:"; BASELINE_TARGET_DIR="$wt/target" /verif/baseline.sh "$wt" | tail -4; c=${PIPESTATUS[0]}
-echo "[d] check $id quick against the change:"; unset CARGO_TARGET_DIR; MT_DIR=/tmp/mt-seed-$id /verif/tools/mutant_run.sh "$wt" "$id" --tier quick "$@" > /tmp/vs-$id-check.log 2>&1; d=$?; grep -E "^VIOLATION|signature:" /tmp/vs-$id-check.log | head -6; tail -1 /tmp/vs-$id-check.log | cut -c1-160
-echo "RESULT id=$id demo_with=$a demo_without=$b baseline=$c check_quick_exit=$d"
+echo "[d] check $id quick against the change:"; unset CARGO_TARGET_DIR; MT_DIR=/tmp/mt-seed-$oid /verif/tools/mutant_run.sh "$wt" "$id" --tier quick "$@" > /tmp/vs-$oid-check.log 2>&1; d=$?; grep -E "^VIOLATION|signature:" /tmp/vs-$oid-check.log | head -6; tail -1 /tmp/vs-$oid-check.log | cut -c1-160
+echo "RESULT id=$oid demo_with=$a demo_without=$b baseline=$c check_quick_exit=$d"
